@@ -1010,3 +1010,13 @@ B('SO-go-extend-offset-zero', ['C02', 'C05', 'C09'], 'index_level.py', 'IndexLev
 N('SO-from-product-renamed-acc', ['C02', 'C05'], 'index_hierarchy.py', 'IndexHierarchy.from_product',
   '            offset = 0\n            for idx, _ in enumerate(index_up):\n                # this level does not have targets, only an index (as a leaf)\n                level = cls._LEVEL_CONSTRUCTOR(index=index,\n                        offset=offset,\n                        targets=targets_previous)\n\n                targets[idx] = level\n                offset += len(level)\n',
   '            total = 0\n            for idx, _ in enumerate(index_up):\n                level = cls._LEVEL_CONSTRUCTOR(index=index,\n                        offset=total,\n                        targets=targets_previous)\n\n                targets[idx] = level\n                total += level.__len__()\n')
+
+# ---------------------------------------------------------------------------------- open slice ends under an offset (C05 / C04)
+B('OS-open-stop-not-bounded', ['C05', 'C04'], 'index.py', 'LocMap.loc_to_iloc',
+  '                if stop is None:\n                    stop = len(positions) + offset #type: ignore\n', '', 'I.offset-open-slice-bounded', 'loc_to_iloc')
+B('OS-open-ends-passed-through', ['C05', 'C04'], 'index.py', 'LocMap.loc_to_iloc',
+  '            if offset_apply and (step is None or step > 0):\n', '            if False:\n', 'I.offset-open-slice-bounded', 'loc_to_iloc')
+B('OS-starred-bounds', ['C05', 'C04'], 'index.py', 'LocMap.loc_to_iloc',
+  '            return slice(start, stop, step)\n', '            return slice(*(start, stop, step)[:0], *cls.map_slice_args(label_to_pos.get, key, labels, offset))\n', 'I.offset-open-slice-bounded', 'loc_to_iloc')
+N('OS-open-start-ifexp', ['C05', 'C04'], 'index.py', 'LocMap.loc_to_iloc',
+  '                if start is None:\n                    start = offset\n', '                start = offset if start is None else start\n')
